@@ -85,6 +85,12 @@ structure OSt where
   hpUsedThisVisit : Bool := false
   gapPollsThisVisit : Nat := 0
   declinedThisVisit : List Nat := []
+  /-- applications asked / whether one of them sent a telegram in the current token visit -/
+  askedThisVisit : List Nat := []
+  sentThisVisit : Bool := false
+  /-- completed token visits (ended by passing the token) in a row without a GAP poll, and the NS they refer to -/
+  pollFreeVisits : Nat := 0
+  pollFreeNs : Nat := 0
   /-- C12: wrap-around token passes (DA ≤ SA, both ≤ 125) witnessed while listening since the station went online -/
   wraps : Nat := 0
   claimedSinceOnline : Bool := false
@@ -116,6 +122,7 @@ def oracleStation (want : String) (o : OSt) (op obs : String) : OSt × Fail :=
                         gapWait := gw.toNat!, hsa := hsa.toNat!, maxRetry := retry.toNat!, minTsdrBits := 11 }
     ({ p := p, napps := napps.toNat!, alive := obs == "ok", ns := p.address, ps := p.address, las := [p.address] }, none)
   | ["st.online"] => ({ o with online := true }, none)
+  | ["st.napps", k] => (if obs == "ok" then { o with napps := k.toNat! } else o, none)
   | ["st.offline"] =>
     ({ p := o.p, napps := o.napps, alive := o.alive, buf := o.buf, bufAtLastPoll := o.buf.length, phyTx := o.phyTx,
        ns := o.p.address, ps := o.p.address, las := [o.p.address] }, none)
@@ -319,6 +326,33 @@ def oracleStation (want : String) (o : OSt) (op obs : String) : OSt × Fail :=
           -- back-off: an unexpected telegram while waiting for a reply leads to ActiveIdle, silently
           (if (prevSt = "AwaitStatusResponse") ∧ ¬ delivered.isEmpty ∧ r.st ≠ "ActiveIdle" ∧ r.st ≠ "PassToken" ∧ r.st ≠ "CheckTokenPass" ∧ r.st ≠ "UseToken" ∧ r.st ≠ "AwaitStatusResponse" then
              some ("C06", s!"unexpected telegram while awaiting a status reply led to {r.st}") else none)]
+      -- ---------------------------------------------------------------- visit-level rules (C12 sweep progress, C13/C15 fairness)
+      let ownTokenTx : Bool := match r.tx with
+        | some b => (match isTokenFrame b with | some (_, sa) => sa == ts | none => false)
+        | none => false
+      let isGapNow : Bool := match txT with
+        | some (.data h _) => (match h.fc with | .request _ .fdlStatus => !fromApp | _ => false)
+        | _ => false
+      -- the token hold ends in this poll: the own token (first attempt) or the GAP poll of this visit goes out
+      let visitEnds : Bool := (prevSt == "UseToken" || prevSt == "AwaitDataResponse" || prevSt == "PassToken" || prevSt == "AwaitStatusResponse")
+        && ownTokenTx
+      let askedNow := (o.askedThisVisit ++ tCalls.map appOf).eraseDups
+      let sentNow := o.sentThisVisit || fromApp
+      let holdEnds : Bool := (prevSt == "UseToken" || prevSt == "AwaitDataResponse") && (ownTokenTx || isGapNow)
+      let c15b : Fail :=
+        if want ≠ "C15" ∧ want ≠ "C13" then none else
+        if holdEnds ∧ o.napps > 0 ∧ o.curReceipt.isSome ∧ ¬ sentNow ∧ askedNow.length < o.napps then
+          some (want, s!"token hold ended although only the applications {askedNow} of {o.napps} were asked in this visit and none of them sent a telegram (an application is starved)")
+        else if want = "C15" ∧ (tCalls.any fun c => (c.splitOn ".").getD 1 "" == "1") ∧ o.hpUsedThisVisit then
+          some ("C15", "applications asked again although the hold time is over and the one guaranteed message cycle of this visit is done (the token must be passed)")
+        else none
+      let gapNonEmpty : Bool := (List.range o.p.hsa).any fun a => decide (InGap ts o.ns o.p.hsa a)
+      let freeNow : Nat := if o.pollFreeNs == o.ns then o.pollFreeVisits else 0
+      let c12b : Fail :=
+        if want ≠ "C12" then none else
+        if visitEnds ∧ o.gapPollsThisVisit = 0 ∧ ¬ isGapNow ∧ gapNonEmpty ∧ freeNow + 1 > o.p.gapWait + 3 then
+          some ("C12", s!"{freeNow + 1} token visits in a row ended without a GAP poll although the GAP towards #{o.ns} is not empty (GAP wait is {o.p.gapWait} rotations)")
+        else none
       -- ---------------------------------------------------------------- state update
       let txEnd : Option Int := r.tx.map fun b => now + (o.p.bits (11 * b.length) : Nat)
       let lastActivity :=
@@ -382,6 +416,10 @@ def oracleStation (want : String) (o : OSt) (op obs : String) : OSt × Fail :=
             | some (.data h _) => (match h.fc with | .request _ .fdlStatus => !fromApp | _ => false)
             | _ => false
            if enteringUse then 0 else if isGap then o.gapPollsThisVisit + 1 else o.gapPollsThisVisit),
+        askedThisVisit := if enteringUse then [] else askedNow,
+        sentThisVisit := if enteringUse then false else sentNow,
+        pollFreeVisits := (if visitEnds then (if o.gapPollsThisVisit = 0 ∧ ¬ isGapNow then freeNow + 1 else 0) else freeNow),
+        pollFreeNs := o.ns,
         declinedThisVisit :=
           (let newDeclined := (tCalls.filter fun c => (c.splitOn ".").getD 2 "" == "d").map appOf
            if enteringUse then [] else if r.st == "UseToken" || r.st == "AwaitDataResponse" then o.declinedThisVisit ++ newDeclined else []),
@@ -403,7 +441,7 @@ def oracleStation (want : String) (o : OSt) (op obs : String) : OSt × Fail :=
           { p := o.p, napps := o.napps, alive := o.alive, buf := o'.buf, bufAtLastPoll := o'.buf.length, phyTx := o.phyTx,
             ns := o.p.address, ps := o.p.address, las := [o.p.address], lastPoll := some now }
         else o'
-      (o'', first [c01, c11, c12, c15, c13, c06])
+      (o'', first [c01, c11, c12, c12b, c15, c15b, c13, c06])
     | _, _ => (o, some (want, s!"unparsable observation: {obs}"))
   | _ => (o, none)
 
